@@ -171,7 +171,7 @@ func C18(c *run.Check) {
 		}
 	}
 	gen := func(i int) *adoc.Doc { return adoc.Instantiate(jobs[i].f, jobs[i].deco) }
-	c.Rule = fmt.Sprintf("forests with <=%d nodes x D0-D2, D5: (1) %d relative expressions (all single steps, position()/last(), reverse axes leaving the subtree) executed with EVERY node of every kind as starting cursor and compared with the reference at context (n,1,1); (2) for %d prefixes P x %d suffixes R: Exec(root,'P/R') against the identity-union of Exec(n,R) over n in Exec(root,P) - implementation against itself; (3) P/f() against f(P) for %d context-dependent builtins. non-trivial = distinct (expression, context kind, non-empty result) resp. distinct (P,R) with non-empty result", n, len(rel), len(c18Prefixes), len(c18Suffixes), len(c18Funcs))
+	c.Rule = fmt.Sprintf("forests with <=%d nodes x D0-D2, D5: (1) %d relative expressions (all single steps, position()/last(), reverse axes leaving the subtree) executed with EVERY node of every kind as starting cursor and compared with the reference at context (n,1,1); (2) for %d prefixes P x %d suffixes R: Exec(root,'P/R') against the identity-union of Exec(n,R) over n in Exec(root,P) - implementation against itself, also on every ordered forest of up to 5 (thorough: 6) elements; (3) P/f() against f(P) for %d context-dependent builtins. non-trivial = distinct (expression, context kind, non-empty result) resp. distinct (P,R) with non-empty result", n, len(rel), len(c18Prefixes), len(c18Suffixes), len(c18Funcs))
 	r := newXRunner(c, "C18", c01Env)
 	r.runGrid(len(jobs), gen, rel, nil)
 
@@ -229,6 +229,50 @@ func C18(c *run.Check) {
 			}
 		}
 	})
+	// deeper trees for the composition: every ordered forest of n+1..5 (thorough: 6)
+	// elements, so that the selections of different context nodes overlap and
+	// interleave (a parent reached again after a deeper node, subtrees beside
+	// ancestors)
+	{
+		dn := 5
+		if !c.Quick() {
+			dn = 6
+		}
+		var deep [][]*adoc.Tm
+		for _, f := range adoc.Forests(dn, adoc.ShapeCfg{Names: []string{"a"}}) {
+			if treeSize(f) > n {
+				deep = append(deep, f)
+			}
+		}
+		type dj struct{ d, p int }
+		var djobs []dj
+		for d := range deep {
+			for p := range c18Prefixes {
+				djobs = append(djobs, dj{d, p})
+			}
+		}
+		run.ParallelW(len(djobs), func(w, i int) {
+			if (!triage && c.Violations() > 0) || c.TimeUp() {
+				return
+			}
+			d := adoc.Instantiate(deep[djobs[i].d], adoc.D0)
+			P := c18Prefixes[djobs[i].p]
+			cache := caches[w]
+			if len(cache.m) > 3000 {
+				caches[w] = newExprCache()
+				cache = caches[w]
+			}
+			for _, R := range c18Suffixes {
+				msg, ev := c18Compose(d, c18Env, P, R, cache)
+				c.Evaluations.Add(int64(ev))
+				if msg != "" {
+					c.Violation(c18Case{Kind: "compose", Doc: d.String(), Events: impl.Events(d), P: P, R: R, Detail: msg}, fmt.Sprintf("[compose] doc=%s %s", d.String(), msg))
+					return
+				}
+			}
+		})
+		c.Set("deep_element_forests_for_composition", len(deep))
+	}
 	for i := 11; i < len(jobs); i += len(jobs)/5 + 1 {
 		c.Sample(map[string]string{"doc": gen(i).String(), "start": "every node", "relative": rel[(i*17)%len(rel)].Text, "prefix": c18Prefixes[i%len(c18Prefixes)], "suffix": c18Suffixes[i%len(c18Suffixes)]})
 	}
